@@ -13,6 +13,7 @@ import (
 	"path/filepath"
 	"sort"
 	"strconv"
+	"strings"
 	"sync"
 	"testing"
 	"time"
@@ -266,6 +267,11 @@ func (r *Rec) Inconclusive(desc string) {
 // Violation records a refuting observation. At most 3 witnesses are written per matcher; the
 // count per matcher is kept in counters.
 func (r *Rec) Violation(caseIdx int, matcher, desc string, witness interface{}) {
+	// a wall-clock watchdog that expired while the harness waited for a reply decides nothing (§1): inconclusive
+	if strings.Contains(desc, "watchdog expired") {
+		r.Inconclusive(fmt.Sprintf("case %d [%s]: %s", caseIdx, matcher, desc))
+		return
+	}
 	r.mu.Lock()
 	defer r.mu.Unlock()
 	r.out.Counters["violations_observed"]++
